@@ -1,7 +1,17 @@
-"""Core recursive spec functions shared by summaries."""
+"""Core spec helpers shared by summaries."""
 import z3
 from . import logic as L
 
 
 def be_value(ctx, s, order="big"):
-    raise NotImplementedError("big-endian value of symbolic-length bytes: use specs.bytesnum")
+    """int.from_bytes for a byte string whose length is symbolic but small: case split on 0..8"""
+    from .symexec import PathEnd
+    from .values import SymError
+    for v in range(0, 9):
+        if ctx.branch(L.eq(s.n, v)):
+            ks = range(v) if order == "big" else reversed(range(v))
+            r = 0
+            for k in ks:
+                r = r * 256 + s.at(k)
+            return r
+    raise SymError("int.from_bytes on a byte string longer than 8 or of unbounded length")
